@@ -46,19 +46,19 @@ theorem top_safe (pf : Bytes → Option UInt64) (AP : Prop) (EL : Lvl) (S : Item
     (hlex : ∀ (str : Bytes) (is : List Item), Lex.lexAll str true = .items is → ∀ it ∈ is, AP ∨ WFItem it)
     (hel : EL.eof → ∀ x ∈ items.dropLast, x.typ ≠ .tEOF) (hlx : EL.lex → LexShape items) :
     FSafe AP EL S (itemListLoop pf (exprFuel items) (FileParser.fuelFor items.length) [.tEOF] none .nil)
-      { p := Parser.initState items } (fun r st' => listOK r ∧ (EL.eof → st'.p.rest = [])) := by
+      { p := Parser.initState items } (fun r st' => listOK r ∧ (EL.eof → st'.p.rest = []) ∧ NP S r) := by
   have hmu := mu_init items
   have ih := fileSpecs_all AP EL S pf (exprFuel items) items.length hz
       (by unfold exprFuel Parser.fuelFor; omega) hwf hlex (8 * items.length + 63)
   have h := itemListLoop_ok0 AP EL S pf (exprFuel items) items.length hz
       (by unfold exprFuel Parser.fuelFor; omega) hwf hlex ih
-      [.tEOF] none .nil { p := Parser.initState items } childrenOK_nil (inv_init S items hz hs hel hlx) hmu
+      [.tEOF] none .nil { p := Parser.initState items } ⟨childrenOK_nil, NPL_nil, fun p h => by cases h⟩ (inv_init S items hz hs hel hlx) hmu
       (by show 8 * mu (Parser.initState items) + 20 ≤ _; omega)
   have hfu : FileParser.fuelFor items.length = 8 * items.length + 63 + 1 := rfl
   rw [hfu]
   apply h.mono
-  intro r st' ⟨hl, hi, hpc, _, hu⟩
-  refine ⟨hl, fun hEL => ?_⟩
+  intro r st' ⟨⟨hl, hnp⟩, hi, hpc, _, hu⟩
+  refine ⟨hl, fun hEL => ?_, hnp⟩
   have hj := hi.2.1 hEL
   have ht : (top st'.p).typ = .tEOF := by simpa using hu
   unfold top at ht
